@@ -64,7 +64,8 @@ type ConcResult struct {
 	Deadlocks   int            `json:"deadlocks"`
 	DeadlockEx  []string       `json:"deadlockEx"`
 	Skipped     string         `json:"skipped,omitempty"`
-	Stuck       []string       `json:"stuck"` // a goroutine that never reached its next gate: blocked outside the mock's locks (reproduced twice)
+	SlowRuns    int            `json:"slowRuns,omitempty"` // schedules in which a goroutine exceeded the time limit once and completed on repetition
+	Stuck       []string       `json:"stuck"`              // a goroutine that never reached its next gate: blocked outside the mock's locks (reproduced twice)
 	HeldAtCb    []string       `json:"heldAtCb"`
 	Fatal       []string       `json:"fatal"`
 	ForeignG    int            `json:"foreignG"`
@@ -79,13 +80,14 @@ type ConcResult struct {
 }
 
 type concRunner struct {
-	e      *Entry
-	job    *ConcJob
-	amap   map[string]string
-	rmap   map[string]string
-	nilM   map[string]bool // real methods whose function stays nil
-	nilRec bool
-	res    *ConcResult
+	e         *Entry
+	job       *ConcJob
+	amap      map[string]string
+	rmap      map[string]string
+	nilM      map[string]bool // real methods whose function stays nil
+	nilRec    bool
+	addedKeys []string // state keys the current run added to the visited set
+	res       *ConcResult
 
 	// per run
 	mv        reflect.Value
@@ -439,7 +441,7 @@ func (r *concRunner) impl(x string, ft reflect.Type) func([]reflect.Value) []ref
 // stuckLimit: a logical goroutine executes a handful of instructions between two
 // gates; one that has not parked again after this long is blocked on something
 // the scheduler does not control (a WaitGroup, a channel, a busy loop).
-const stuckLimit = 4 * time.Second
+const stuckLimit = 6 * time.Second
 
 type stuckError struct{ what string }
 
@@ -566,6 +568,7 @@ func (r *concRunner) runOnce(choices []int, visited map[string]bool, byID []int)
 	if err := r.setup(); err != nil {
 		return nil, false, err
 	}
+	r.addedKeys = r.addedKeys[:0]
 	s := r.s
 	prevProj, prevG := "", 0
 	for step := 0; ; step++ {
@@ -626,6 +629,7 @@ func (r *concRunner) runOnce(choices []int, visited map[string]bool, byID []int)
 				return ns, true, nil
 			}
 			visited[key] = true
+			r.addedKeys = append(r.addedKeys, key)
 		}
 		var g *G
 		switch {
@@ -661,6 +665,10 @@ func (r *concRunner) runOnce(choices []int, visited map[string]bool, byID []int)
 		if !r.resumeG(g) {
 			what := r.stuckAt(g)
 			r.abortRun()
+			// the states this run marked as visited were not explored from: forget them
+			for _, k := range r.addedKeys {
+				delete(visited, k)
+			}
 			return ns, false, &stuckError{what}
 		}
 	}
@@ -750,16 +758,24 @@ func runConc(job *ConcJob) *ConcResult {
 		}
 		ns, pruned, err := r.runOnce(choices, visited, nil)
 		if se, ok := err.(*stuckError); ok {
-			// the same schedule once more on a fresh mock: a verdict needs a reproduction
-			// (the first part of the choices is what led there; the rest is first-enabled)
-			_, _, err2 := r.runOnce(choices, map[string]bool{}, nil)
-			if _, again := err2.(*stuckError); again {
-				res.Stuck = append(res.Stuck, se.what)
-			} else {
-				res.Infra = "a goroutine was stuck once and not on the repetition (machine under load?): " + se.what
+			// the same schedule again on a fresh mock, up to twice: a verdict needs the blockage
+			// every time; a run that completes shows the first one was the machine (a logical
+			// goroutine waiting seconds for a processor), and exploration continues with it
+			stuckAgain := 0
+			for attempt := 0; attempt < 2; attempt++ {
+				ns, pruned, err = r.runOnce(choices, visited, nil)
+				if _, again := err.(*stuckError); again {
+					stuckAgain++
+					continue
+				}
+				break
 			}
-			res.Exhaustive = false
-			return res
+			if stuckAgain == 2 {
+				res.Stuck = append(res.Stuck, se.what)
+				res.Exhaustive = false
+				return res
+			}
+			res.SlowRuns++
 		}
 		if err != nil {
 			res.Infra = err.Error()
